@@ -21,7 +21,7 @@ Your task: make ONE small, realistic change to the library source in {wt} (non-t
   (1) the repository still compiles (go build ./... and go vet-free test build),
   (2) the existing test suite still passes completely, unedited,
   (3) the breakage is NOT exposed by ordinary use at once: it should need something specific to manifest — a particular interleaving, a fault at a particular point, a multi-step sequence of operations, an unusual/boundary input, or two cooperating sites that each look fine alone. Think of the kind of bug a plausible refactoring, optimisation or "cleanup" could introduce.
-Then write a demonstration: a NEW Go test file (or small program) in the worktree that FAILS with your change and PASSES without it (verify both: use `git stash` / `git stash pop` or apply/reverse the diff), exercising the public or package-level behaviour the property talks about.
+Then write a demonstration: a NEW Go test file (or small program) in the worktree that FAILS with your change and PASSES without it (verify both by saving the diff to a file and using `git apply -R` / `git apply`; NEVER use `git stash` - the stash is shared between worktrees - and never use pkill/killall or kill processes you did not start), exercising the public or package-level behaviour the property talks about.
 
 Deliver, inside {wt}:
   - the change itself left applied in the working tree (uncommitted),
